@@ -218,21 +218,30 @@ def _run_one(mod, case):
     return res
 
 
+UNSTABLE = "__verdict-depends-on-process-history__"
+
+
+_HISTORY = []  # the cases this worker process has executed so far
+
+
 def _worker_chunk(chunk):
     out = []
     for case in chunk:
+        before = list(_HISTORY)
+        _HISTORY.append(case)
         res = _run_one(_MOD, case)
         vio = res.get("violations") or []
-        if vio:
+        if vio and not os.environ.get("XV_NOCONFIRM"):
             # confirm by an immediate second execution
             res2 = _run_one(_MOD, case)
             keys2 = {k for k, _ in (res2.get("violations") or [])}
             confirmed = [(k, w) for k, w in vio if k in keys2]
             if len(confirmed) != len(vio):
-                raise HarnessError(
-                    "non-reproducible verdict on %r: %r vs %r"
-                    % (case, vio, res2.get("violations"))
-                )
+                # the verdict depends on what this process did before (state
+                # the library - or the harness - keeps between calls): it is
+                # decided in fresh processes instead (see Ctx._fresh_verdicts)
+                vio = [(UNSTABLE, "%r vs %r" % (vio, res2.get("violations")),
+                        before[-1500:])]
         out.append(
             (
                 jhash(case),
@@ -506,11 +515,67 @@ class Ctx:
             results = map(_worker_chunk, chunks)
         else:
             results = self._robust(_worker_chunk, chunks)
+        unstable = []
         for ch, out in results:
             for case, (h, nt, oc, vio, counts) in zip(ch, out):
+                if vio and vio[0][0] == UNSTABLE:
+                    unstable.append((case, vio[0][1], vio[0][2]))
+                    continue
                 self.note(h, nt, oc, counts)
                 for key, what in vio:
                     self.violation(key, what, case)
+        if unstable:
+            self._fresh_verdicts(unstable)
+
+    def _fresh_verdicts(self, unstable):
+        """Cases whose verdict differed between two executions in the same
+        worker: each is run as the first thing two fresh processes do; if the
+        two agree that is the verdict (and what a replay shows), otherwise
+        the harness does not own the nondeterminism and gives up."""
+        from concurrent.futures import ThreadPoolExecutor
+
+        env = dict(self.pool_env(), XV_NOCONFIRM="1")
+
+        def fresh(case):
+            p1 = XPool(1, self.mod.__name__, env)
+            try:
+                for _, res in p1.imap_unordered(_worker_chunk, [[case]]):
+                    return res[1][0]
+            finally:
+                p1.shutdown(False)
+
+        def twice(item):
+            return fresh(item[0]), fresh(item[0])
+
+        with ThreadPoolExecutor(min(NPROC, len(unstable))) as tp:
+            outs = list(tp.map(twice, unstable[:64]))
+        for (case, seen, hist), (r1, r2) in zip(unstable, outs):
+            k1 = sorted(k for k, _ in r1[3])
+            k2 = sorted(k for k, _ in r2[3])
+            if k1 != k2:
+                raise HarnessError(
+                    "non-reproducible verdict on %r: in the worker %s; in two "
+                    "fresh processes %r vs %r" % (case, seen, r1[3], r2[3]))
+            h, nt, oc, vio, counts = r1
+            self.note(h, nt, oc, counts)
+            for key, what in vio:
+                self.violation(key, what, case)
+        self.coverage_extra["history_dependent_verdicts"] = {
+            "cases": len(unstable), "decided_in_fresh_processes": len(outs),
+            "explanation": "the verdict of these cases changed between two "
+            "executions in one worker process (state kept between calls); "
+            "each was decided by running it first thing in two fresh "
+            "processes"}
+        if unstable:
+            # a correct tree gives every case the same verdict every time
+            case, seen, hist = unstable[0]
+            self.violation(
+                "%s|verdict-depends-on-process-history" % self.pid,
+                "the same scenario, run twice in one process after other "
+                "scenarios, was judged differently (%d scenarios; first: %s) "
+                "- something is kept between calls" % (
+                    len(unstable), seen[:300]),
+                {"_unstable": True, "case": case, "history": hist})
 
     # -- finish ----------------------------------------------------------- #
     def finish(self):
@@ -636,6 +701,20 @@ def run_replay(path):
             vio = [(art["key"], "the worker process died")]
         finally:
             p1.shutdown(False)
+    elif isinstance(art["case"], dict) and art["case"].get("_unstable"):
+        # the scenarios the worker had executed before, then the scenario
+        # twice: judged differently = something is kept between calls
+        for c in art["case"]["history"]:
+            try:
+                _run_one(mod, c)
+            except HarnessError:
+                pass
+        v1 = _run_one(mod, art["case"]["case"]).get("violations") or []
+        v2 = _run_one(mod, art["case"]["case"]).get("violations") or []
+        k1, k2 = sorted(k for k, _ in v1), sorted(k for k, _ in v2)
+        print("first execution: %r\nsecond execution: %r" % (k1, k2))
+        vio = [(art["key"], "judged %r, then %r" % (k1, k2))] if k1 != k2 \
+            else []
     elif isinstance(art["case"], dict) and "_call" in art["case"]:
         r = _call(mod, art["case"]["_call"], art["case"]["payload"])
         if isinstance(r, LibraryRaised):
